@@ -45,4 +45,11 @@ def expectedFor_C15 : List (String × String) := [
 /-- the code behind C15 branches on exactly the conditions the model was written against -/
 theorem conditions_as_modelled_C15 : Gen.condSitesFor_C15 = expectedFor_C15 := by rfl
 
+def expectedOptFor_C15 : List (String × String) := [
+  ("v2/patch_common.go:patch:Equals#1", "none")
+]
+
+/-- every call inside the functions behind C15 passes on the option / metadata list the model passes on -/
+theorem option_plumbing_as_modelled_C15 : Gen.optSitesFor_C15 = expectedOptFor_C15 := by rfl
+
 end Jd.CondSites
